@@ -88,8 +88,7 @@ def parseExpression(expression):
         except TypeError as e:
             raise e
         except KeyError as e:
-            logging.warning(expression["name"].lower() + " has not been implemented yet! Skipping...")
-            return "0"
+            raise NotImplementedError("Function " + expression["name"] + " is not supported by the XMILE transpiler")
 
     '''
     Handle Operators
